@@ -35,6 +35,9 @@ N_PROGRAMS = {"quick": 3000, "thorough": 120000}
 N_TWINS = {"quick": 250, "thorough": 6000}
 # generated-source mode (declared functions: distinct constructor IDs, runtime names): batches x programs
 M2_PROPS = {"C01", "C13", "C14", "C18", "C19", "C20"}
+# properties that are also judged (by their trace predicate alone) on programs whose user functions call Invoke
+# from inside their bodies; every fifth generated program is of that kind
+R_PROPS = {"C02", "C05"}
 N_M2 = {"quick": (1, 300), "thorough": (10, 400)}
 
 
@@ -214,6 +217,14 @@ def proof_step(pid, tier):
 def explore_one(pid, pair, prog, do_twins, rnd):
     """returns (failures, stats) for one program.  failure = dict(kind, descr, program)"""
     fails = []
+    if prog.get("reentrant"):
+        # user functions that call back into the container: outside the model; the implementation's trace is judged alone
+        it = pair.impl.ask(json.dumps(prog, separators=(",", ":")))
+        bad = props.PRED[pid](prog, it)
+        if bad:
+            fails.append({"kind": "predicate", "descr": "re-entrant user functions: " + bad[0], "program": prog})
+        nt = any(e["e"] == "re" for o in it.get("ops", []) if isinstance(o, dict) for e in o.get("ev", []))
+        return fails, {"nontrivial": nt, "mt": {"ops": []}, "it": it, "reentrant": True}
     mt, it = pair.run(prog)
     proj = props.PROJ[pid]
     if mt.get("error"):
@@ -254,7 +265,10 @@ def worker(args):
     sample = None
     for k in range(lo, hi):
         seed = seed0 * 1000003 + k
-        prog = gen.generate(seed, w)
+        if pid in R_PROPS and k % 5 == 4:
+            prog = gen.generate_reentrant(seed, w)
+        else:
+            prog = gen.generate(seed, w)
         rnd = random.Random(seed)
         fs, st = explore_one(pid, pair, prog, k < ntw, rnd)
         for f in fs:
@@ -262,6 +276,10 @@ def worker(args):
         fails.extend(fs[:1])
         if st.get("skipped"):
             skipped += 1
+        if st.get("reentrant"):
+            dist["reentrant-programs"] = dist.get("reentrant-programs", 0) + 1
+            if st.get("nontrivial"):
+                dist["reentrant-programs-with-nested-invoke"] = dist.get("reentrant-programs-with-nested-invoke", 0) + 1
         if st.get("nontrivial"):
             h = hash(json.dumps([prog["fns"], prog["ops"], prog["script"], prog["cfg"]], sort_keys=True))
             if h not in seen:
